@@ -270,12 +270,19 @@ def error_to_message(old_pr, log):
                     "Rendering the renderable exception failed: %r", e2, exc_info=e2
                 )
                 msg = Message(code=INTERNAL_SERVER_ERROR)
-            old_pr.add_response(msg, is_last=True)
         else:
             log.error(
                 "An exception occurred while rendering a resource: %r", e, exc_info=e
             )
-            old_pr.add_response(Message(code=INTERNAL_SERVER_ERROR), is_last=True)
+            msg = Message(code=INTERNAL_SERVER_ERROR)
+
+        if msg.opt.no_response is None and not msg.code.is_successful():
+            # Like with responses returned from a render method, the
+            # requester's wish not to hear about some classes of responses is
+            # carried along (successful codes as in 2.31 Continue keep
+            # flowing, they are part of the block-wise mechanics)
+            msg.opt.no_response = old_pr.request.opt.no_response
+        old_pr.add_response(msg, is_last=True)
 
         return False
 
